@@ -985,6 +985,37 @@ qs_spec("handle_packet", [("packet", "PacketObj"), ("dcid", "Bytes"), ("quic_ver
         state_calls={"self.set_initial_decryptor": dict(kind="extshared", lean="set_initial_decryptor", args=["Bytes", "Bool"], ret="None"),
                      "self.packet_isserver": dict(kind="extshared", lean="packet_isserver", args=["PacketObj", "Bytes"], ret="Bool")})
 
+# main.py, what the Demux group leaves: the key-log statements of run() (the `-s` file, a decryption secrets block of the capture),
+# the collection of the exported frames (every TLS session in list order, then every QUIC session), the TCP session lookup /
+# creation of handle_packet. Sessions are opaque objects (σ / τ), their methods externals; κ = a key-log entry, ο = an exported frame.
+GROUPS["Main2"] = dict(imports=["TLX.PyRt", "TLX.MainLoop"], decls=[], options=["set_option linter.unusedVariables false"])
+MAINF = "tlexport/main.py"
+SPECS.append(dict(name="Main.collect", group="Main2", file=MAINF, func="run", theorem="Main2.collect_eq_model",
+                  select={"start": "all_decrypted_sessions = []", "end": "for quic_session in quic_sessions:"}, tparams=["σ", "τ", "ο"],
+                  params=[("sessions", "List σ"), ("quic_sessions", "List τ"), ("metadata", "Bool")],
+                  locals={"all_decrypted_sessions": "List ο"}, outs=[("all_decrypted_sessions", "List ο")], st_tparams=["ο"],
+                  externals=[("tls_out", "σ → List ο"), ("quic_out", "τ → Bool → List ο")],
+                  obj_methods={("σ", "decrypt"): dict(lean="tls_out", args=[], ret="List ο"),
+                               ("τ", "build_output"): dict(lean="quic_out", args=["Bool"], ret="List ο")}))
+SPECS.append(dict(name="Main.run_dsb", group="Main2", file=MAINF, func="run", theorem="Main2.run_dsb_eq_model",
+                  select={"start": "if ts == -1:"}, tparams=["κ"], st_tparams=["κ"], params=[("ts", "Int"), ("buf", "Bytes")], exits=True,
+                  places=[("keylog", "keylog", "List κ", "rw")], externals=[("keys_of", "Bytes → List κ")],
+                  consts={"keylog_reader.get_keys_from_string(buf.decode('ascii'))": ("(keys_of buf)", "List κ")}))
+SPECS.append(dict(name="Main.run_keylog_file", group="Main2", file=MAINF, func="run", theorem="Main2.run_keylog_file_eq_model",
+                  select={"start": "if args.sslkeylog is not None:"}, tparams=["κ", "ρ"], st_tparams=["κ"], params=[],
+                  places=[("keylog", "keylog", "List κ", "rw"), ("args.sslkeylog", "sslkeylog", "Option ρ", "r")],
+                  externals=[("file_keys", "Option ρ → List κ")],
+                  calls={"keylog_reader.read_keylog_from_file": dict(lean="file_keys", args=["Option ρ"], ret="List κ")}))
+# handle_packet (TLS over TCP): the first session in list order that matches gets the packet; else a new one iff a port is a server port
+SPECS.append(dict(name="Main.handle_packet", group="Main2", file=MAINF, func="handle_packet", theorem="Main2.handle_packet_eq_model",
+                  tparams=["σ", "π"], st_tparams=["σ"], params=[("packet", "π")], ret="None",
+                  places=[("sessions", "sessions", "List σ", "rw"), ("server_ports", "server_ports", "List Int", "r"),
+                          ("packet.dport", "dport", "Int", "r"), ("packet.sport", "sport", "Int", "r")],
+                  obj_lists={"sessions": "σ"}, externals=[("matches_session", "σ → π → Bool"), ("feed", "σ → π → σ"), ("new_session", "π → σ")],
+                  obj_methods={("σ", "matches_session"): dict(lean="matches_session", args=["π"], ret="Bool")},
+                  mut_methods={("σ", "handle_packet"): dict(lean="feed", args=["π"])},
+                  calls={"Session": dict(lean="new_session", args=["π", None, None, None, None, None], ret="σ")}))
+
 THEOREMS = _uniq(theorem_of(s) for s in SPECS)
 
 
